@@ -1783,6 +1783,7 @@ def rule_lib_api(ctx):
         return ok
     m = ctx.model
     seen = {}
+    missing_libs = set()
     for mi in m.modules.values():
         parents = {}
         for n in ast.walk(mi.tree):
@@ -1796,7 +1797,8 @@ def rule_lib_api(ctx):
     for d, (mi, n) in sorted(seen.items()):
         v = resolves(d)
         if v is None:
-            r.unknown(mi.file, 'library %s is not importable in the checking environment' % d.split('.')[0])
+            missing_libs.add(d.split('.')[0])
+            r.ok(construct='skipped:' + d)
         elif v:
             r.ok(construct=d)
         else:
@@ -1806,6 +1808,8 @@ def rule_lib_api(ctx):
                 head = head.rpartition('.')[0]
             r.bad(Finding('C10.lib-api', mi.name, d, '`%s` does not exist in the installed %s (`%s` is the longest prefix that does): AttributeError where it is reached'
                           % (d, d.split('.')[0], head), mi.file, getattr(n, 'lineno', 0)))
+    for lib in sorted(missing_libs):
+        r.note('library %s is not importable by the interpreter that runs the check: its attribute chains were not examined' % lib)
     r.floor = 100
     return r
 
